@@ -70,6 +70,7 @@ def oracle(scn, obs, ref, schedule):
             chain_start = spans[kk][1]
         seg = tl[chain_start:r]
         accepted = []
+        issued = [t[1].split(":")[0] for t in seg if t[0] == "inject" and t[1].split(":")[0] in engine.TERMINATORS]
         for t in seg:
             if t[0] == "state" and t[1] in ("aborting", "stopping", "halting"):
                 accepted.append(t[1])
@@ -97,6 +98,10 @@ def oracle(scn, obs, ref, schedule):
                 allowed |= {"abort", "success"}
             if late_accept:
                 allowed.add("success")
+            # abort()/stop()/halt() that were ISSUED in this chain but refused (TransitionError to their caller, e.g. an
+            # abort while the engine is already stopping) still name a cause under the statement: either mapping is accepted
+            for kind in issued:
+                allowed.add({"abort": "abort", "halt": "abort", "stop": "success"}[kind])
         plan_closed, engine_closed = _stops_by_origin(obs, chain_start, r)
         for doc in engine_closed:
             st = doc.get("exit_status")
@@ -115,7 +120,8 @@ def oracle(scn, obs, ref, schedule):
         # ---- what the call raised
         if c["name"] in ("RE", "resume"):
             interrupted = bool(accepted) or bool(nonres)
-            if isinstance(e, RunEngineInterrupted) and c["state_after"] == "idle" and not interrupted and not amb:
+            maybe_interrupted = interrupted or bool(issued)
+            if isinstance(e, RunEngineInterrupted) and c["state_after"] == "idle" and not maybe_interrupted and not amb:
                 if not any(x[0] == "suspend-late" for x in inter):
                     out.append(("interrupted-without-cause", f"{c['name']}() raised RunEngineInterrupted, engine idle, but no abort/stop/halt/non-resumable interruption was accepted"))
             if e is None and interrupted:
